@@ -30,7 +30,9 @@ def run_case(case):
     cen = np.array(case["scene"]["centers"], float)
     cxyz = pl.to_xyz(cen[:, 0], cen[:, 1])
     K = len(cxyz)
-    samples = [pl.Sample(c, cxyz) for c in case["scene"]["cats"]]
+    samples = pl.scene_samples(case["scene"])
+    if samples is None:
+        return Result.discard("derived-centres-leave-a-patch-empty")
     if min(s.margin.min() for s in samples) < 1e-12:
         return Result.discard("equidistant-object")
     with Scratch() as tmp:
